@@ -201,9 +201,15 @@ SimExtentUndefined(S) == \E i \in DOMAIN S : IsActive(S[i]) /\ ~S[i].c
 \* data row t and receives its value
 SimPointCopy(S, t) == [w \in Vars |-> IF t <= Len(S) /\ IsActive(S[t]) /\ S[t].z[w] THEN t ELSE 0]
 
-\* Db::createReduce: the rows returned by getRanksActive() without variable
-CreateReduceRows(S) == Idx(S, LAMBDA i : RanksActive(S[i]))
-DeclReduceRows(S)   == Idx(S, LAMBDA i : SelOn(S[i]))
+\* row-level readers of the selection: Db::createReduce (rows of getRanksActive() without variable),
+\* getSampleNumber(true), getColumn(useSel = true, compressed) (cell exactly 1), getRanksActive, getActiveArray
+IsOne(s) == s.sel \in {"none", "on"}
+RowReaders(S) == << Idx(S, LAMBDA i : RanksActive(S[i])),
+                    Cardinality({i \in DOMAIN S : CountedActive(S[i])}),
+                    Idx(S, LAMBDA i : IsOne(S[i])),
+                    Idx(S, LAMBDA i : RanksActive(S[i])),
+                    Idx(S, LAMBDA i : IsActive(S[i])) >>
+DeclRows(S) == LET r == Idx(S, LAMBDA i : SelOn(S[i])) IN <<r, Len(r), r, r, r>>
 
 -----------------------------------------------------------------------------
 (* Catalogue: for every operation what it reads, the shape of its data, its   *)
@@ -234,7 +240,8 @@ NeedsOf(op) ==
 KindOf(op) ==
   CASE op \in {"krig_u", "xvalid_u", "simtub", "stat", "stat_iso", "cov", "cov_sym", "drift"} -> "data"
     [] op \in {"krig_m", "krig_mb", "xvalid_m"} -> "tdata"
-    [] op \in {"neigh_u", "reduce"} -> "idx"
+    [] op = "neigh_u" -> "idx"
+    [] op = "reduce" -> "rows5"
     [] op \in {"neigh_m", "neigh_mb"} -> "tidx"
     [] op \in {"migrate", "migrate_ball"} -> "tsrc"
     [] op = "vario" -> "count"
@@ -254,7 +261,7 @@ DeclOf(op, S) ==
     [] op = "cov_sym" -> DeclData(S, {"c", "v"})
     [] op = "drift" -> DeclData(S, {"c", "f", "v"})
     [] op \in {"migrate", "migrate_ball"} -> [t \in Targets |-> DeclMigrateSrc(S, t)]
-    [] op = "reduce" -> DeclReduceRows(S)
+    [] op = "reduce" -> DeclRows(S)
     [] op = "simtub_pt" -> <<DeclData(S, KNeeds), [t \in Targets |-> [w \in Vars |-> 0]]>>   \* no target coincides with a datum
 
 HangMark == <<<<0, 0>>>>
@@ -276,7 +283,7 @@ CodeOf(op, S) ==
     [] op = "drift" -> RanksData(S, TRUE)
     [] op = "migrate" -> [t \in Targets |-> MigrateSrc(S, t)]
     [] op = "migrate_ball" -> [t \in Targets |-> MigrateBallSrc(S, t)]
-    [] op = "reduce" -> CreateReduceRows(S)
+    [] op = "reduce" -> RowReaders(S)
     [] op = "simtub_pt" -> <<IF SimExtentUndefined(S) THEN HangMark ELSE FlagDefine(S, NbUnique(S)),
                              [t \in Targets |-> SimPointCopy(S, t)]>>
 
@@ -290,6 +297,7 @@ ToId(op, S, x) ==
     [] KindOf(op) = "tidx"  -> [t \in Targets |-> IdxToId(S, x[t])]
     [] KindOf(op) = "tsrc"  -> [t \in Targets |-> IF x[t] = 0 THEN 0 ELSE S[x[t]].id]
     [] KindOf(op) = "count" -> x
+    [] KindOf(op) = "rows5" -> <<IdxToId(S, x[1]), x[2], IdxToId(S, x[3]), IdxToId(S, x[4]), IdxToId(S, x[5])>>
     [] KindOf(op) = "datasrc" -> <<PairsToId(S, x[1]),
                                    [t \in Targets |-> [w \in Vars |-> IF x[2][t][w] = 0 THEN 0 ELSE S[x[2][t][w]].id]]>>
 
